@@ -54,7 +54,10 @@ if r.returncode == 0:
 # 4: demonstration
 if os.path.isfile(os.path.join(src, "build.sh")):
     r = run(["bash", "build.sh"], cwd=src, timeout=3600)
-    meta["demo"] = {"cmd": "bash build.sh (in the sub-agent's output directory)", "exit": r.returncode, "output_tail": r.stdout[-1500:]}
+    out = r.stdout
+    ex = re.findall(r"(?i)(orig|unmod|clean|mod|patched|changed)\w*[^\n]{0,40}?exit[^\n]{0,20}?(\d+)", out)
+    meta["demo"] = {"cmd": "bash build.sh (in the sub-agent's output directory; builds and runs the demonstration on the unmodified and on the changed code)",
+                    "exit": r.returncode, "exit_codes_seen": ex[-6:], "output_head": out[:1200], "output_tail": out[-1800:]}
 # 5: our check
 r = run([sys.executable, os.path.join(V, "tools", "try_seeded.py"), prop, patch])
 meta["check"] = {"cmd": "tools/try_seeded.py %s seeded/%s/patch.diff  (quick tier, seed 0)" % (prop, sid), "exit": r.returncode,
